@@ -492,3 +492,278 @@ Section MphfProofs.
       rewrite <- L; try rewrite <- R; reflexivity.
   Qed.
 End MphfProofs.
+
+(* ------------------------------------------------------------------ counting facts for perfectness *)
+Lemma popcount_map_filter {A} (f : A -> bool) l : popcount (map f l) = length (filter f l).
+Proof. induction l as [|x l IH]; cbn; auto. destruct (f x); cbn; lia. Qed.
+
+Lemma popcount_firstn_lt : forall (a : bv) s1 s2, s1 < s2 -> bget a s1 = true ->
+  popcount (firstn s1 a) < popcount (firstn s2 a).
+Proof.
+  induction a as [|b a IH]; intros s1 s2 L B.
+  - unfold bget in B. destruct s1; discriminate.
+  - destruct s2; [lia|]. destruct s1; cbn in *.
+    + unfold bget in B; cbn in B. subst b. lia.
+    + unfold bget in B; cbn in B. specialize (IH s1 s2). unfold bget in IH. destruct b; cbn; apply IH in B; lia.
+Qed.
+Lemma popcount_firstn_all (a : bv) s : bget a s = true -> popcount (firstn s a) < popcount a.
+Proof.
+  intros B. assert (s < length a).
+  { destruct (le_lt_dec (length a) s); auto. rewrite bget_overflow in B; auto. discriminate. }
+  rewrite <- (firstn_all a) at 2. apply popcount_firstn_lt; auto.
+Qed.
+Lemma popcount_firstn_inj (a : bv) s1 s2 : bget a s1 = true -> bget a s2 = true ->
+  popcount (firstn s1 a) = popcount (firstn s2 a) -> s1 = s2.
+Proof.
+  intros B1 B2 E. destruct (Nat.lt_total s1 s2) as [L|[L|L]]; auto.
+  - pose proof (popcount_firstn_lt a s1 s2 L B1). lia.
+  - pose proof (popcount_firstn_lt a s2 s1 L B2). lia.
+Qed.
+
+Lemma count_occ_filter (P : nat -> bool) l x :
+  count_occ Nat.eq_dec (filter P l) x = if P x then count_occ Nat.eq_dec l x else 0.
+Proof.
+  induction l as [|y l IH]; cbn; [destruct (P x); auto|].
+  destruct (P y) eqn:Py; cbn; destruct (Nat.eq_dec y x); subst; rewrite ?IH; auto.
+  - rewrite Py; auto.
+  - rewrite Py; auto.
+Qed.
+
+Lemma filter_split_length {A} (f g : A -> bool) l : (forall x, In x l -> f x = negb (g x)) ->
+  length (filter f l) + length (filter g l) = length l.
+Proof.
+  induction l as [|x l IH]; intros H; cbn; auto.
+  rewrite (H x) by (left; auto). destruct (g x); cbn; rewrite <- IH; auto; try lia; intros; apply H; right; auto.
+Qed.
+
+(* slots carrying exactly one key <-> keys alone on their slot *)
+Lemma ones_count (slots : list nat) size : Forall (fun s => s < size) slots ->
+  length (filter (fun s => cnt s slots =? 1) (seq 0 size)) = length (filter (fun s => cnt s slots =? 1) slots).
+Proof.
+  intros F. rewrite Forall_forall in F.
+  assert (N1 : NoDup (filter (fun s => cnt s slots =? 1) (seq 0 size))) by (apply NoDup_filter, seq_NoDup).
+  assert (N2 : NoDup (filter (fun s => cnt s slots =? 1) slots)).
+  { apply (NoDup_count_occ Nat.eq_dec). intros x. rewrite count_occ_filter.
+    destruct (cnt x slots =? 1) eqn:E; [apply Nat.eqb_eq in E; unfold cnt in E; lia|lia]. }
+  apply Nat.le_antisymm; apply NoDup_incl_length; auto; intros x Hx; apply filter_In in Hx;
+    destruct Hx as (Hx & E); apply filter_In; split; auto.
+  - apply Nat.eqb_eq in E. apply (count_occ_In Nat.eq_dec). unfold cnt in E. lia.
+  - apply in_seq. specialize (F x Hx). lia.
+Qed.
+
+Lemma combine_map_r {A B} (f : A -> B) l : combine l (map f l) = map (fun x => (x, f x)) l.
+Proof. induction l; cbn; congruence. Qed.
+Lemma map_fst_filter_pair {A B} (f : A -> B) (P : B -> bool) l :
+  map fst (filter (fun ks => P (snd ks)) (map (fun x => (x, f x)) l)) = filter (fun x => P (f x)) l.
+Proof. induction l as [|x l IH]; cbn; auto. destruct (P (f x)); cbn; rewrite IH; auto. Qed.
+
+Lemma cnt_map_in {A} (f : A -> nat) l x : In x l -> 1 <= cnt (f x) (map f l).
+Proof. intros H. apply (in_map f) in H. apply (count_occ_In Nat.eq_dec) in H. unfold cnt. lia. Qed.
+Lemma cnt_map_two {A} (f : A -> nat) l x y : In x l -> In y l -> x <> y -> f x = f y -> 2 <= cnt (f x) (map f l).
+Proof.
+  induction l as [|z l IH]; intros Hx Hy Ne E; [destruct Hx|]. cbn [map]. rewrite cnt_cons'.
+  destruct Hx as [->|Hx], Hy as [->|Hy]; try congruence.
+  - rewrite Nat.eqb_refl. rewrite E. pose proof (cnt_map_in f l y Hy). lia.
+  - rewrite E, Nat.eqb_refl. rewrite <- E. pose proof (cnt_map_in f l x Hx). lia.
+  - specialize (IH Hx Hy Ne E). lia.
+Qed.
+
+Lemma filter_map_length {A B} (f : A -> B) (P : B -> bool) l :
+  length (filter P (map f l)) = length (filter (fun k => P (f k)) l).
+Proof. induction l as [|k l IH]; cbn; auto. destruct (P (f k)); cbn; rewrite IH; auto. Qed.
+
+(* ------------------------------------------------------------------ the MPHF is perfect on its keys (when construction terminates) *)
+Section Perfect.
+  Variable h : nat -> nat -> key -> nat.
+  Variable sz : nat -> nat.
+  Hypothesis h_lt : forall iter n k, h iter (sz n) k < sz n.
+
+  (* the level in the shape used below *)
+  Definition lv_f (iter : nat) (keys : list key) : key -> nat := h iter (sz (length keys)).
+  Definition lv_a (iter : nat) (keys : list key) : bv :=
+    map (fun s => cnt s (map (lv_f iter keys) keys) =? 1) (seq 0 (sz (length keys))).
+  Definition lv_redo (iter : nat) (keys : list key) : list key :=
+    filter (fun k => 2 <=? cnt (lv_f iter keys k) (map (lv_f iter keys) keys)) keys.
+
+  Lemma level_spec_shape iter keys : level_spec h sz iter keys = (lv_a iter keys, lv_redo iter keys).
+  Proof.
+    unfold level_spec, lv_a, lv_redo, level_slots, lv_f. f_equal.
+    rewrite combine_map_r. apply (map_fst_filter_pair _ (fun s => 2 <=? cnt s _)).
+  Qed.
+
+  Lemma lv_a_length iter keys : length (lv_a iter keys) = sz (length keys).
+  Proof. unfold lv_a. rewrite map_length, seq_length. auto. Qed.
+  Lemma bget_lv_a iter keys s : s < sz (length keys) ->
+    bget (lv_a iter keys) s = (cnt s (map (lv_f iter keys) keys) =? 1).
+  Proof. intros. unfold bget, lv_a. apply (nth_map_seq (fun s => cnt s _ =? 1)); auto. Qed.
+  Lemma bget_lv_a_key iter keys k :
+    bget (lv_a iter keys) (lv_f iter keys k) = (cnt (lv_f iter keys k) (map (lv_f iter keys) keys) =? 1).
+  Proof. apply bget_lv_a. apply h_lt. Qed.
+
+  Lemma level_count iter keys : popcount (lv_a iter keys) + length (lv_redo iter keys) = length keys.
+  Proof.
+    unfold lv_a. rewrite popcount_map_filter, ones_count.
+    2:{ apply Forall_forall. intros s H. apply in_map_iff in H. destruct H as (k & <- & _). apply h_lt. }
+    set (f := lv_f iter keys). set (slots := map f keys).
+    unfold slots at 2. rewrite (filter_map_length f (fun s => cnt s slots =? 1)).
+    apply filter_split_length. intros k Hk.
+    pose proof (cnt_map_in f keys k Hk). subst slots f. leb_solve.
+  Qed.
+
+  Notation thf := (try_hash_from h).
+
+  Definition Q (iter pop : nat) (m : list bv) (keys : list key) : Prop :=
+    (forall k, In k keys -> exists r, thf iter pop m k = Some r) /\
+    (forall k1 k2 r, In k1 keys -> In k2 keys -> thf iter pop m k1 = Some r -> thf iter pop m k2 = Some r -> k1 = k2) /\
+    (forall q r, thf iter pop m q = Some r ->
+                 pop <= r < pop + length keys /\ exists k, In k keys /\ thf iter pop m k = Some r).
+
+  Lemma Q_nil iter pop : Q iter pop [] [].
+  Proof. repeat split; cbn in *; try contradiction; discriminate. Qed.
+
+  Lemma thf_cons iter pop keys m' q :
+    thf iter pop (lv_a iter keys :: m') q =
+      if bget (lv_a iter keys) (lv_f iter keys q) then Some (pop + popcount (firstn (lv_f iter keys q) (lv_a iter keys)))
+      else thf (S iter) (pop + popcount (lv_a iter keys)) m' q.
+  Proof. cbn [try_hash_from]. rewrite lv_a_length. reflexivity. Qed.
+
+  Lemma Q_step iter pop keys m' : NoDup keys ->
+    Q (S iter) (pop + popcount (lv_a iter keys)) m' (lv_redo iter keys) ->
+    Q iter pop (lv_a iter keys :: m') keys.
+  Proof.
+    intros ND (T & I & H).
+    set (f := lv_f iter keys) in *. set (a := lv_a iter keys) in *. set (slots := map f keys).
+    pose proof (level_count iter keys) as LC. fold a in LC.
+    assert (InRedo : forall k, In k keys -> bget a (f k) = false -> In k (lv_redo iter keys)).
+    { intros k Hk B. apply filter_In. split; auto. unfold a, f in B. rewrite bget_lv_a_key in B.
+      pose proof (cnt_map_in (lv_f iter keys) keys k Hk). leb_solve. }
+    assert (RedoOut : forall k, In k (lv_redo iter keys) -> In k keys /\ bget a (f k) = false).
+    { intros k Hk. apply filter_In in Hk. destruct Hk as (Hk & C). split; auto.
+      unfold a, f. rewrite bget_lv_a_key. leb_solve. }
+    assert (Uniq : forall k1 k2, In k1 keys -> In k2 keys -> f k1 = f k2 -> bget a (f k1) = true -> k1 = k2).
+    { intros k1 k2 H1 H2 E B. destruct (N.eq_dec k1 k2) as [|Ne]; auto. exfalso.
+      pose proof (cnt_map_two f keys k1 k2 H1 H2 Ne E). unfold a, f in B. rewrite bget_lv_a_key in B.
+      fold f in B. leb_solve. }
+    repeat split.
+    - (* total on the keys *)
+      intros k Hk. unfold a, f. rewrite thf_cons. fold f a.
+      destruct (bget a (f k)) eqn:B; [eauto|]. apply T. apply InRedo; auto.
+    - (* injective on the keys *)
+      intros k1 k2 r H1 H2. unfold a, f. rewrite !thf_cons. fold f a.
+      destruct (bget a (f k1)) eqn:B1; destruct (bget a (f k2)) eqn:B2; intros E1 E2.
+      + inversion E1; inversion E2; subst. apply Uniq; auto.
+        apply (popcount_firstn_inj a); auto. lia.
+      + inversion E1; subst. apply H in E2. pose proof (popcount_firstn_all a _ B1). lia.
+      + inversion E2; subst. apply H in E1. pose proof (popcount_firstn_all a _ B2). lia.
+      + apply (I k1 k2 r); auto.
+    - (* every hit is at least pop ... *)
+      revert H0. unfold a, f. rewrite thf_cons. fold f a.
+      destruct (bget a (f q)) eqn:B; intros E; [inversion E; lia|]. apply H in E. lia.
+    - (* ... and below pop + n *)
+      revert H0. unfold a, f. rewrite thf_cons. fold f a.
+      destruct (bget a (f q)) eqn:B; intros E.
+      + inversion E; subst. pose proof (popcount_firstn_all a _ B). lia.
+      + apply H in E. lia.
+    - (* every hit is the value of some key *)
+      revert H0. unfold a, f. rewrite thf_cons. fold f a.
+      destruct (bget a (f q)) eqn:B; intros E.
+      + inversion E; subst. unfold a, f in B. rewrite bget_lv_a_key in B. fold f in B.
+        assert (C : 1 <= cnt (f q) (map f keys)) by leb_solve.
+        unfold cnt in C. apply (count_occ_In Nat.eq_dec) in C. apply in_map_iff in C.
+        destruct C as (k & Ek & Hk). exists k. split; auto.
+        unfold a, f. rewrite thf_cons. fold f a. rewrite Ek.
+        assert (B' : bget a (f q) = true) by (unfold a, f; rewrite bget_lv_a_key; fold f; auto).
+        rewrite B'. reflexivity.
+      + apply H in E. destruct E as (_ & k & Hk & Ek). apply RedoOut in Hk. destruct Hk as (Hk & Bk).
+        exists k. split; auto. unfold a, f. rewrite thf_cons. fold f a. rewrite Bk. auto.
+  Qed.
+  Lemma loop_Q : forall fuel iter keys m pop, NoDup keys ->
+    mphf_loop h sz fuel iter keys = Some m -> Q iter pop m keys.
+  Proof.
+    induction fuel as [|fuel IH]; intros iter keys m pop ND E; destruct keys as [|k0 r]; cbn [mphf_loop] in E;
+      try discriminate; try (inversion E; apply Q_nil).
+    rewrite (level_serial_spec h sz h_lt), level_spec_shape in E.
+    destruct (mphf_loop h sz fuel (S iter) (lv_redo iter (k0 :: r))) as [m'|] eqn:E'; cbn in E; inversion E; subst.
+    apply Q_step; auto. apply IH; auto. apply NoDup_filter; auto.
+  Qed.
+
+  (* minimal perfect hash: total and injective on the keys, onto [0, n); and ANY item that hits a set bit
+     gets the value of some key (so key verification can always be carried out) *)
+  Theorem mphf_perfect keys m : NoDup keys -> mphf_new h sz keys = Some m ->
+    (forall k, In k keys -> exists r, try_hash h m k = Some r) /\
+    (forall k1 k2 r, In k1 keys -> In k2 keys -> try_hash h m k1 = Some r -> try_hash h m k2 = Some r -> k1 = k2) /\
+    (forall q r, try_hash h m q = Some r -> r < length keys /\ exists k, In k keys /\ try_hash h m k = Some r).
+  Proof.
+    intros ND E. unfold mphf_new in E. rewrite (level_serial_spec h sz h_lt), level_spec_shape in E.
+    destruct (mphf_loop h sz (MAX_ITERS - 1) 1 (lv_redo 0 keys)) as [m'|] eqn:E'; cbn in E; inversion E; subst.
+    assert (Q0 : Q 0 0 (lv_a 0 keys :: m') keys).
+    { apply Q_step; auto. apply (loop_Q _ _ _ _ _ (NoDup_filter _ ND) E'). }
+    destruct Q0 as (T & I & H). unfold try_hash. repeat split; auto.
+    - apply H in H0. lia.
+    - apply H in H0. tauto.
+  Qed.
+End Perfect.
+
+(* ------------------------------------------------------------------ BoomHashMap lookups *)
+Lemma in_combine_exists {A B} (k : A) : forall keys (vals : list B), In k keys -> length vals = length keys ->
+  exists v, In (k, v) (combine keys vals).
+Proof.
+  induction keys as [|x keys IH]; intros vals H L; [destruct H|]. destruct vals as [|v vals]; [discriminate|].
+  destruct H as [->|H]; [exists v; left; auto|]. destruct (IH vals H) as (w & Hw); [cbn in L; lia|].
+  exists w. right; auto.
+Qed.
+Lemma combine_fun {A B} (k : A) (v1 v2 : B) : forall keys vals, NoDup keys ->
+  In (k, v1) (combine keys vals) -> In (k, v2) (combine keys vals) -> v1 = v2.
+Proof.
+  induction keys as [|x keys IH]; intros vals ND H1 H2; [destruct H1|]. destruct vals as [|v vals]; [destruct H1|].
+  inversion ND; subst. cbn in H1, H2.
+  destruct H1 as [E1|H1], H2 as [E2|H2]; try congruence.
+  - inversion E1; subst. apply in_combine_l in H2. contradiction.
+  - inversion E2; subst. apply in_combine_l in H1. contradiction.
+  - eapply IH; eauto.
+Qed.
+Lemma nth_error_map_seq {A} (f : nat -> A) n r : r < n -> nth_error (map f (seq 0 n)) r = Some (f r).
+Proof.
+  intros H. apply map_nth_error. rewrite (nth_error_nth' _ 0) by (rewrite seq_length; auto).
+  rewrite seq_nth; auto.
+Qed.
+
+Section Lookup.
+  Variable h : nat -> nat -> key -> nat.
+  Variable sz : nat -> nat.
+  Hypothesis h_lt : forall iter n k, h iter (sz n) k < sz n.
+  Context {V : Type}.
+
+  (* get never panics and returns exactly the value stored with the key, None for every other key *)
+  Theorem lookup_exact keys (vals : list V) m : NoDup keys -> length vals = length keys ->
+    bhm_new h sz keys vals = Some m ->
+    forall k, exists o, bhm_get h m k = Some o /\ forall v, o = Some v <-> In (k, v) (combine keys vals).
+  Proof.
+    intros ND L E k. unfold bhm_new in E. destruct (mphf_new h sz keys) as [mm|] eqn:EM; [|discriminate].
+    cbn in E. inversion E; subst m. clear E.
+    destruct (mphf_perfect h sz h_lt keys mm ND EM) as (T & I & H).
+    unfold bhm_get, bhm_of. cbn [b_mphf b_table].
+    destruct (try_hash h mm k) as [pos|] eqn:EK.
+    - destruct (H k pos EK) as (Lt & k' & Hk' & Ek').
+      unfold create_map. rewrite combine_length, L, Nat.min_id. rewrite nth_error_map_seq by auto.
+      set (ranked := map (fun kv : key * V => (try_hash h mm (fst kv), kv)) (combine keys vals)).
+      destruct (in_combine_exists k' keys vals Hk' L) as (v' & Hv').
+      destruct (find (fun r => match fst r with Some j => j =? pos | None => false end) ranked) as [[o [kx vx]]|] eqn:F.
+      + apply find_some in F. destruct F as (Fin & Fp). cbn [fst] in Fp.
+        destruct o as [j|]; [|discriminate]. apply Nat.eqb_eq in Fp. subst j.
+        unfold ranked in Fin. apply in_map_iff in Fin. destruct Fin as ((kx' & vx') & Ex & Hx).
+        cbn [fst] in Ex. inversion Ex; subst kx' vx'. clear Ex.
+        assert (kx = k') by (apply (I kx k' pos); auto; apply in_combine_l in Hx; auto). subst kx.
+        cbn [option_map snd]. eexists. split; [reflexivity|]. intros v.
+        destruct (N.eqb_spec k k') as [->|Ne].
+        * split; [intros E; inversion E; subst; auto|]. intros Hv. f_equal. eapply combine_fun; eauto.
+        * split; [discriminate|]. intros Hv. exfalso. apply Ne. apply (I k k' pos); auto.
+          apply in_combine_l in Hv; auto.
+      + exfalso. pose proof (find_none _ _ F (try_hash h mm k', (k', v'))) as C.
+        cbn [fst] in C. rewrite Ek', Nat.eqb_refl in C.
+        assert (In (try_hash h mm k', (k', v')) ranked) by (unfold ranked; apply in_map_iff; exists (k', v'); auto).
+        rewrite Ek' in H0. specialize (C H0). discriminate.
+    - exists None. split; auto. intros v. split; [discriminate|]. intros Hv. exfalso.
+      apply in_combine_l in Hv. destruct (T k Hv) as (r & Er). congruence.
+  Qed.
+End Lookup.
